@@ -6,18 +6,22 @@ One invariant (`RInv`) is carried along the replay loop: the L0 machine, after `
 the blank tape, is in the unrolled configuration of the replay (up to trailing blanks), every
 configuration met before has a defined instruction and is not a spin-out configuration, the tape
 is canonical, every entry of the blank record is true, and the record holds each state once.
-A plain cycle keeps it (`plainStep_sound`), a validated application keeps it (`check_app_sound'`).
+A plain cycle keeps it (`plainStep_sound`), a validated application keeps it: the loop is generic
+over the application validator `va`, of which only soundness (`VaSound`) is used; `vaCheck`
+(`replay`) is sound by `check_app_sound'`, `vaSym` (`replaySym`) by that and `validate_app_sound'`.
 -/
 import BB.Model.ValidateTrace
 import BB.Lemmas.Validate
 import BB.Lemmas.RunQuick2
+import BB.Lemmas.SymRule5
 
 namespace BB
 
 /-! ### unfolding `replayGo` -/
 
 /-- the plain branch of one replay cycle (the local `plain` of `replayGo`) -/
-def replayPlain (p : Prog) (budget fuel cycle q : Nat) (t : Tape) (steps : Nat)
+def replayPlain (p : Prog) (va : Nat → Tape → AppRec → Option Nat)
+    (why : Nat → Tape → AppRec → AppRes) (fuel cycle q : Nat) (t : Tape) (steps : Nat)
     (blanks : List (Nat × Nat)) (apps : List AppRec) : ReplayEnd × List (Nat × Nat) :=
   match plainStep p q t with
   | .undefined slot => (.undfnd cycle slot t.marks steps, blanks)
@@ -26,38 +30,57 @@ def replayPlain (p : Prog) (budget fuel cycle q : Nat) (t : Tape) (steps : Nat)
     if t'.cellsBlank then
       if blanks.any (fun e => e.1 == q') then (.blankRec cycle q' (steps + k), blanks)
       else if q' == 0 then (.blankRec cycle q' (steps + k), (q', steps + k) :: blanks)
-      else replayGo p budget fuel (cycle + 1) q' t' (steps + k) ((q', steps + k) :: blanks) apps
-    else replayGo p budget fuel (cycle + 1) q' t' (steps + k) blanks apps
+      else replayGo p va why fuel (cycle + 1) q' t' (steps + k) ((q', steps + k) :: blanks) apps
+    else replayGo p va why fuel (cycle + 1) q' t' (steps + k) blanks apps
 
-theorem replayGo_zero (p : Prog) (budget cycle q : Nat) (t : Tape) (steps : Nat)
+theorem replayGo_zero (p : Prog) (va : Nat → Tape → AppRec → Option Nat)
+    (why : Nat → Tape → AppRec → AppRes) (cycle q : Nat) (t : Tape) (steps : Nat)
     (blanks : List (Nat × Nat)) (apps : List AppRec) :
-    replayGo p budget 0 cycle q t steps blanks apps = (.limit q t steps, blanks) := by
+    replayGo p va why 0 cycle q t steps blanks apps = (.limit q t steps, blanks) := by
   rw [replayGo]
 
-theorem replayGo_succ_nil (p : Prog) (budget fuel cycle q : Nat) (t : Tape) (steps : Nat)
+theorem replayGo_succ_nil (p : Prog) (va : Nat → Tape → AppRec → Option Nat)
+    (why : Nat → Tape → AppRec → AppRes) (fuel cycle q : Nat) (t : Tape) (steps : Nat)
     (blanks : List (Nat × Nat)) :
-    replayGo p budget (fuel + 1) cycle q t steps blanks []
-      = replayPlain p budget fuel cycle q t steps blanks [] := by
+    replayGo p va why (fuel + 1) cycle q t steps blanks []
+      = replayPlain p va why fuel cycle q t steps blanks [] := by
   rw [replayGo]; rfl
 
-theorem replayGo_succ_cons (p : Prog) (budget fuel cycle q : Nat) (t : Tape) (steps : Nat)
+theorem replayGo_succ_cons (p : Prog) (va : Nat → Tape → AppRec → Option Nat)
+    (why : Nat → Tape → AppRec → AppRes) (fuel cycle q : Nat) (t : Tape) (steps : Nat)
     (blanks : List (Nat × Nat)) (a : AppRec) (rest : List AppRec) :
-    replayGo p budget (fuel + 1) cycle q t steps blanks (a :: rest)
+    replayGo p va why (fuel + 1) cycle q t steps blanks (a :: rest)
       = if a.cycle < cycle then (.appMismatch cycle, blanks)
         else if a.cycle == cycle then
           if a.state != q || a.before != t then (.appMismatch cycle, blanks)
-          else match checkApp p q t a.after budget with
-            | .ok _ s => replayGo p budget fuel (cycle + 1) q a.after (steps + s) blanks rest
-            | r => (.badApp cycle r, blanks)
-        else replayPlain p budget fuel cycle q t steps blanks (a :: rest) := by
+          else match va q t a with
+            | some s => replayGo p va why fuel (cycle + 1) q a.after (steps + s) blanks rest
+            | none => (.badApp cycle (why q t a), blanks)
+        else replayPlain p va why fuel cycle q t steps blanks (a :: rest) := by
   rw [replayGo]; rfl
 
 /-! ### small facts -/
 
+theorem Span.blankB_allZeroB {s : Span} (h : Span.blankB s = true) :
+    allZeroB (Span.unroll s) = true := by
+  induction s with
+  | nil => rfl
+  | cons b rest ih =>
+    simp only [Span.blankB, List.all_cons, Bool.and_eq_true, Bool.or_eq_true, beq_iff_eq] at h
+    have ih' := ih (by simpa [Span.blankB] using h.2)
+    simp only [allZeroB, Span.unroll, List.flatMap_cons, List.all_append, Bool.and_eq_true] at ih' ⊢
+    refine ⟨?_, ih'⟩
+    rw [List.all_eq_true]
+    intro x hx
+    rw [List.mem_replicate] at hx
+    rcases h.1 with hc | hc
+    · rw [hx.2, hc]; rfl
+    · exact absurd hc hx.1
+
 theorem Tape.cellsBlank_toCfg {t : Tape} (h : t.cellsBlank = true) (q : Nat) :
     (t.toCfg q).Blank := by
-  simp only [Tape.cellsBlank, Bool.and_eq_true, beq_iff_eq, allZeroB_iff] at h
-  exact ⟨h.1.1, h.1.2, h.2⟩
+  simp only [Tape.cellsBlank, Bool.and_eq_true, beq_iff_eq] at h
+  exact ⟨h.1.1, (allZeroB_iff _).1 (Span.blankB_allZeroB h.1.2), (allZeroB_iff _).1 (Span.blankB_allZeroB h.2)⟩
 
 theorem any_fst_exists {b : List (Nat × Nat)} {q : Nat}
     (h : b.any (fun e => e.1 == q) = true) : ∃ n, (q, n) ∈ b := by
@@ -221,13 +244,14 @@ theorem REnd.ofBlankRec {p : Prog} {hi cycle q n : Nat} {bl : List (Nat × Nat)}
 /-! ### one cycle -/
 
 /-- the plain branch: given the result for every shorter replay (`ih`) -/
-theorem replayPlain_spec (p : Prog) (budget fuel : Nat)
+theorem replayPlain_spec (p : Prog) (va : Nat → Tape → AppRec → Option Nat)
+    (why : Nat → Tape → AppRec → AppRes) (fuel : Nat)
     (ih : ∀ (cycle q : Nat) (t : Tape) (steps : Nat) (blanks : List (Nat × Nat))
       (apps : List AppRec), RInv p q t steps blanks →
-      REnd p (cycle + fuel) (replayGo p budget fuel cycle q t steps blanks apps))
+      REnd p (cycle + fuel) (replayGo p va why fuel cycle q t steps blanks apps))
     (cycle q : Nat) (t : Tape) (steps : Nat) (blanks : List (Nat × Nat)) (apps : List AppRec)
     (inv : RInv p q t steps blanks) :
-    REnd p (cycle + (fuel + 1)) (replayPlain p budget fuel cycle q t steps blanks apps) := by
+    REnd p (cycle + (fuel + 1)) (replayPlain p va why fuel cycle q t steps blanks apps) := by
   have hhi : cycle + (fuel + 1) = cycle + 1 + fuel := by omega
   unfold replayPlain
   cases hps : plainStep p q t with
@@ -274,11 +298,19 @@ theorem replayPlain_spec (p : Prog) (budget fuel : Nat)
     · rw [if_neg hbl, hhi]
       exact ih (cycle + 1) q' t' (steps + k) _ apps ⟨hcanon', hrun', hold, inv.nodup⟩
 
-/-- **the replay loop is sound** -/
-theorem replayGo_spec (p : Prog) (budget : Nat) :
+/-- what the replay needs of an application validator: an accepted application from a canonical
+    tape is a run of `s ≥ 1` real machine steps to `a.after`, through configurations with a defined
+    instruction that are not spin-out configurations, and `a.after` is canonical -/
+def VaSound (p : Prog) (va : Nat → Tape → AppRec → Option Nat) : Prop :=
+  ∀ (q : Nat) (t : Tape) (a : AppRec) (s : Nat), va q t a = some s → t.Canon →
+    RunVia p.toF (OnWay p.toF True) (t.toCfg q) s (a.after.toCfg q) ∧ 1 ≤ s ∧ a.after.Canon
+
+/-- **the replay loop is sound**, for every sound application validator -/
+theorem replayGo_spec (p : Prog) (va : Nat → Tape → AppRec → Option Nat)
+    (why : Nat → Tape → AppRec → AppRes) (hva : VaSound p va) :
     ∀ (fuel cycle q : Nat) (t : Tape) (steps : Nat) (blanks : List (Nat × Nat))
       (apps : List AppRec), RInv p q t steps blanks →
-      REnd p (cycle + fuel) (replayGo p budget fuel cycle q t steps blanks apps) := by
+      REnd p (cycle + fuel) (replayGo p va why fuel cycle q t steps blanks apps) := by
   intro fuel
   induction fuel with
   | zero =>
@@ -290,7 +322,7 @@ theorem replayGo_spec (p : Prog) (budget : Nat) :
     cases apps with
     | nil =>
       rw [replayGo_succ_nil]
-      exact replayPlain_spec p budget fuel ih cycle q t steps blanks [] inv
+      exact replayPlain_spec p va why fuel ih cycle q t steps blanks [] inv
     | cons a rest =>
       rw [replayGo_succ_cons]
       by_cases h1 : a.cycle < cycle
@@ -303,26 +335,69 @@ theorem replayGo_spec (p : Prog) (budget : Nat) :
           · rw [if_pos h3]
             exact REnd.ofFailure inv _ _ (Or.inr ⟨_, rfl⟩)
           · rw [if_neg h3]
-            cases hca : checkApp p q t a.after budget with
-            | ok cyc s =>
+            cases hca : va q t a with
+            | some s =>
               simp only
-              obtain ⟨_, _, _, hrun, _, hcan⟩ :=
-                check_app_sound' p q t a.after budget cyc s inv.canon.pos hca
+              obtain ⟨hrun, _, hcan⟩ := hva q t a s hca inv.canon
               have hhi : cycle + (fuel + 1) = cycle + 1 + fuel := by omega
               rw [hhi]
               refine ih (cycle + 1) q a.after (steps + s) blanks rest
-                ⟨hcan inv.canon, inv.extend hrun, fun q' n h => ?_, inv.nodup⟩
+                ⟨hcan, RunVia.trans (fun _ _ hab => OnWay.congr hab) inv.run hrun,
+                  fun q' n h => ?_, inv.nodup⟩
               exact ⟨(inv.blanks q' n h).1, Nat.le_trans (inv.blanks q' n h).2 (Nat.le_add_right _ _)⟩
-            | undefinedOnWay slot => exact REnd.ofFailure inv _ _ (Or.inl ⟨_, _, rfl⟩)
-            | spinoutOnWay => exact REnd.ofFailure inv _ _ (Or.inl ⟨_, _, rfl⟩)
-            | overBudget => exact REnd.ofFailure inv _ _ (Or.inl ⟨_, _, rfl⟩)
-            | notCanon => exact REnd.ofFailure inv _ _ (Or.inl ⟨_, _, rfl⟩)
+            | none => exact REnd.ofFailure inv _ _ (Or.inl ⟨_, _, rfl⟩)
         · rw [if_neg h2]
-          exact replayPlain_spec p budget fuel ih cycle q t steps blanks (a :: rest) inv
+          exact replayPlain_spec p va why fuel ih cycle q t steps blanks (a :: rest) inv
+
+/-! ### the two validators are sound -/
+
+theorem vaCheck_sound (p : Prog) (budget : Nat) : VaSound p (vaCheck p budget) := by
+  intro q t a s h hcanon
+  unfold vaCheck at h
+  cases hca : checkApp p q t a.after budget with
+  | ok cyc s' =>
+    rw [hca] at h
+    simp only [Option.some.injEq] at h
+    subst h
+    obtain ⟨h1, _, h3, hrun, _, hcan⟩ :=
+      check_app_sound' p q t a.after budget cyc s' hcanon.pos hca
+    exact ⟨hrun.mono fun _ hc => hc.mono fun _ => hcanon, by omega, hcan hcanon⟩
+  | undefinedOnWay slot => rw [hca] at h; cases h
+  | spinoutOnWay => rw [hca] at h; cases h
+  | overBudget => rw [hca] at h; cases h
+  | notCanon => rw [hca] at h; cases h
+
+theorem vaSym_sound (p : Prog) (budget : Nat) : VaSound p (vaSym p budget) := by
+  intro q t a s h hcanon
+  unfold vaSym at h
+  cases hca : checkApp p q t a.after budget with
+  | ok cyc s' =>
+    rw [hca] at h
+    simp only [Option.some.injEq] at h
+    subst h
+    obtain ⟨h1, _, h3, hrun, _, hcan⟩ :=
+      check_app_sound' p q t a.after budget cyc s' hcanon.pos hca
+    exact ⟨hrun.mono fun _ hc => hc.mono fun _ => hcanon, by omega, hcan hcanon⟩
+  | undefinedOnWay slot => rw [hca] at h; cases h
+  | spinoutOnWay => rw [hca] at h; cases h
+  | overBudget =>
+    rw [hca] at h
+    simp only at h
+    obtain ⟨h1, _, _, hrun, hcan⟩ := Sym.validate_app_sound' p q t a.after a.times budget s h
+    exact ⟨hrun.mono fun _ hc => hc.mono fun _ => hcanon, h1, hcan hcanon⟩
+  | notCanon => rw [hca] at h; cases h
 
 theorem replay_spec (p : Prog) (budget lim : Nat) (apps : List AppRec) :
     REnd p lim (replay p budget lim apps) := by
-  have := replayGo_spec p budget lim 0 0 Tape.init 0 [] apps (RInv.init p)
+  have := replayGo_spec p _ (whyCheck p budget) (vaCheck_sound p budget) lim 0 0 Tape.init 0 []
+    apps (RInv.init p)
+  rw [Nat.zero_add] at this
+  exact this
+
+theorem replaySym_spec (p : Prog) (budget lim : Nat) (apps : List AppRec) :
+    REnd p lim (replaySym p budget lim apps) := by
+  have := replayGo_spec p _ (whyCheck p budget) (vaSym_sound p budget) lim 0 0 Tape.init 0 []
+    apps (RInv.init p)
   rw [Nat.zero_add] at this
   exact this
 
@@ -334,9 +409,10 @@ def ReplayEnd.Valid (e : ReplayEnd) : Prop := (∀ c w, e ≠ .badApp c w) ∧ (
 theorem ReplayEnd.valid_of {e : ReplayEnd} (h1 : ∀ c w, e ≠ .badApp c w)
     (h2 : ∀ c, e ≠ .appMismatch c) : e.Valid := ⟨h1, h2⟩
 
-theorem replayGo_nil_valid (p : Prog) (budget : Nat) :
+theorem replayGo_nil_valid (p : Prog) (va : Nat → Tape → AppRec → Option Nat)
+    (why : Nat → Tape → AppRec → AppRes) :
     ∀ (fuel cycle q : Nat) (t : Tape) (steps : Nat) (blanks : List (Nat × Nat)),
-      (replayGo p budget fuel cycle q t steps blanks []).1.Valid := by
+      (replayGo p va why fuel cycle q t steps blanks []).1.Valid := by
   intro fuel
   induction fuel with
   | zero =>
@@ -395,9 +471,84 @@ theorem replay_blanks' (p : Prog) (budget lim : Nat) (apps : List AppRec) (e : R
 theorem replay_no_apps' (p : Prog) (budget lim : Nat) (e : ReplayEnd) (bl : List (Nat × Nat))
     (h : replay p budget lim [] = (e, bl)) :
     (∀ c w, e ≠ .badApp c w) ∧ (∀ c, e ≠ .appMismatch c) := by
-  have := replayGo_nil_valid p budget lim 0 0 Tape.init 0 []
+  have := replayGo_nil_valid p (vaCheck p budget) (whyCheck p budget) lim 0 0 Tape.init 0 []
   unfold replay at h
   rw [h] at this
   exact this
+
+/-! ### the same for `replaySym` -/
+
+theorem replaySym_undfnd' (p : Prog) (budget lim : Nat) (apps : List AppRec) (cyc q s m n : Nat)
+    (bl : List (Nat × Nat)) (h : replaySym p budget lim apps = (.undfnd cyc (q, s) m n, bl)) :
+    HaltsAt p.toF n q s ∧ (∃ c, RunAt p.toF n c ∧ c.marks = m) ∧
+      (∀ j c, j < n → RunAt p.toF j c → ¬ SpinOutCfg p.toF c) ∧ cyc < lim :=
+  (replaySym_spec p budget lim apps).undfnd cyc q s m n (by rw [h])
+
+theorem replaySym_spnout' (p : Prog) (budget lim : Nat) (apps : List AppRec) (cyc m n : Nat)
+    (bl : List (Nat × Nat)) (h : replaySym p budget lim apps = (.spnout cyc m n, bl)) :
+    (∃ c, RunAt p.toF n c ∧ SpinOutCfg p.toF c ∧ c.marks = m) ∧
+      (∀ j c, j < n → RunAt p.toF j c → ¬ SpinOutCfg p.toF c) ∧ cyc < lim :=
+  (replaySym_spec p budget lim apps).spnout cyc m n (by rw [h])
+
+theorem replaySym_blankRec' (p : Prog) (budget lim : Nat) (apps : List AppRec) (cyc q n : Nat)
+    (bl : List (Nat × Nat)) (h : replaySym p budget lim apps = (.blankRec cyc q n, bl)) :
+    BlankAfter p.toF n q ∧ NeverHalts p.toF :=
+  (replaySym_spec p budget lim apps).blankRec cyc q n (by rw [h])
+
+theorem replaySym_limit' (p : Prog) (budget lim : Nat) (apps : List AppRec) (q : Nat) (t : Tape)
+    (n : Nat) (bl : List (Nat × Nat)) (h : replaySym p budget lim apps = (.limit q t n, bl)) :
+    (∃ c, RunAt p.toF n c ∧ c ≈c t.toCfg q) ∧ t.Canon ∧
+      (∀ j c, j < n → RunAt p.toF j c → ¬ SpinOutCfg p.toF c) :=
+  (replaySym_spec p budget lim apps).limit q t n (by rw [h])
+
+theorem replaySym_blanks' (p : Prog) (budget lim : Nat) (apps : List AppRec) (e : ReplayEnd)
+    (bl : List (Nat × Nat)) (h : replaySym p budget lim apps = (e, bl)) :
+    (∀ q n, (q, n) ∈ bl → BlankAfter p.toF n q) ∧ (bl.map (·.1)).Nodup := by
+  have spec := replaySym_spec p budget lim apps
+  rw [h] at spec
+  exact ⟨spec.blanks, spec.nodup⟩
+
+theorem replaySym_no_apps' (p : Prog) (budget lim : Nat) (e : ReplayEnd) (bl : List (Nat × Nat))
+    (h : replaySym p budget lim [] = (e, bl)) :
+    (∀ c w, e ≠ .badApp c w) ∧ (∀ c, e ≠ .appMismatch c) := by
+  have := replayGo_nil_valid p (vaSym p budget) (whyCheck p budget) lim 0 0 Tape.init 0 []
+  unfold replaySym at h
+  rw [h] at this
+  exact this
+
+/-! ### an infinite rule at the end of a replay -/
+
+/-- a configuration reached without halt or spin-out from which the machine neither halts nor
+    spins out: the machine never halts and never spins out -/
+theorem never_halts_from {p : ProgF} {n : Nat} {c e : Cfg} (hr : RunAt p n c) (he : c ≈c e)
+    (hbefore : ∀ j c', j < n → RunAt p j c' → ¬ SpinOutCfg p c')
+    (hrun : ∀ k, ∃ c', stepN p k e = some c')
+    (hns : ∀ k c', stepN p k e = some c' → ¬ SpinOutCfg p c') :
+    NeverHalts p ∧ ¬ SpinsOut p := by
+  refine ⟨fun N => ?_, ?_⟩
+  · by_cases hN : N ≤ n
+    · exact stepN_le hr hN
+    · obtain ⟨k, rfl⟩ : ∃ k, N = n + k := ⟨N - n, by omega⟩
+      obtain ⟨c', hc'⟩ := hrun k
+      obtain ⟨b', hb', _⟩ := stepN_congr he.symm hc'
+      exact ⟨b', stepN_add_of_eq hr hb'⟩
+  · rintro ⟨N, cN, hN, hspin⟩
+    by_cases hlt : N < n
+    · exact hbefore N cN hlt hN hspin
+    · obtain ⟨k, rfl⟩ : ∃ k, N = n + k := ⟨N - n, by omega⟩
+      obtain ⟨c0, h0, hk⟩ := stepN_prefix hN
+      have : c0 = c := RunAt.unique h0 hr
+      subst this
+      obtain ⟨b', hb', heq⟩ := stepN_congr he hk
+      exact hns k b' hb' (SpinOutCfg.congr heq hspin)
+
+theorem replaySym_limit_inf' (p : Prog) (budget lim : Nat) (apps : List AppRec) (q : Nat)
+    (t : Tape) (n : Nat) (bl : List (Nat × Nat)) (budget' : Nat)
+    (h : replaySym p budget lim apps = (.limit q t n, bl))
+    (hinf : Sym.validateInf p q t budget' = true) :
+    NeverHalts p.toF ∧ ¬ SpinsOut p.toF := by
+  obtain ⟨⟨c, hr, he⟩, hcanon, hbefore⟩ := replaySym_limit' p budget lim apps q t n bl h
+  obtain ⟨hrun, hns⟩ := Sym.validate_inf_sound' p q t budget' hinf
+  exact never_halts_from hr he hbefore hrun (hns hcanon)
 
 end BB
